@@ -331,6 +331,20 @@ def run_tex(key):
         res["sample"] = {"case": key}
         return res
     res["n"] += base["calls"]
+    # the same numbers in Fortran memory order / as a transposed view: same diagnostics
+    if q_id and n >= 2:
+        for tag, Al in (("fortran", np.asfortranarray(A0)), ("tview", np.ascontiguousarray(A0.transpose(0, 2, 1)).transpose(0, 2, 1))):
+            count("layout_irrelevant")
+            try:
+                alt = observe(Al, ba_pairs)
+                res["n"] += alt["calls"]
+                same = all(np.allclose(x, y, rtol=0, atol=1e-12, equal_nan=True) for x, y in zip(alt["pgr"], base["pgr"])) and all(
+                    min(np.abs(x - y).max(), np.abs(x + y).max()) <= 1e-9 for x, y in zip(alt["mean"], base["mean"])
+                )
+                if not same:
+                    V("layout_irrelevant", tag, {"pgr": alt["pgr"], "pgr_contiguous": base["pgr"]}, layout=tag)
+            except Exception as e:
+                V("layout_irrelevant", tag, {"exception": type(e).__name__, "msg": str(e)[:200]}, layout=tag, exc=type(e).__name__)
 
     perms = perm_letters(n)
     relabs = relab_letters(n)
@@ -535,7 +549,24 @@ def run_fse(key):
     def call(F):
         res["n"] += 1
         out = d.finite_strain(np.ascontiguousarray(F).copy())
-        return float(out[0]), np.asarray(out[1], dtype=float)
+        e_, v_ = float(out[0]), np.asarray(out[1], dtype=float)
+        # the same gradient in Fortran memory order / typed int64 where whole: same result
+        alts = [("fortran", np.asfortranarray(np.array(F, float)))]
+        if np.array_equal(F, np.rint(F)):
+            alts.append(("int64", np.rint(F).astype(np.int64)))
+        for tag, Fl in alts:
+            count("fse_layout_dtype_irrelevant")
+            try:
+                o2 = d.finite_strain(Fl)
+                v2 = np.asarray(o2[1], float)
+                if not (abs(float(o2[0]) - e_) <= 1e-12 * max(1.0, abs(e_)) and (v2.shape != (3,) or min(np.abs(v2 - v_).max(), np.abs(v2 + v_).max()) <= 1e-9 or gap_of(F) <= GAP)):
+                    V("fse_layout_dtype_irrelevant", {"strain": float(o2[0]), "strain_contiguous_float64": e_, "axis": v2, "axis_contiguous_float64": v_}, variant=tag)
+            except Exception as ex:
+                V("fse_layout_dtype_irrelevant", {"exception": type(ex).__name__, "msg": str(ex)[:200]}, variant=tag)
+        return e_, v_
+
+    def gap_of(F):
+        return fse_reference(np.array(F, float))[2]
 
     def absolute(F, e, v, tk):
         s0, u0, gap = fse_reference(F)
